@@ -29,6 +29,12 @@ CONSTANTS Init0, MaxT, QCap,  \* initial workers, maximum workers, queue capacit
           RestartReserves,    \* TRUE: start() takes a slot under the lock for every initial worker, like a submitter (repaired code,
                               \*       finding F-09d); FALSE: it spawns them unconditionally - together with a submitter that is
                               \*       adding a worker of its own the pool exceeds its maximum
+          ResetKeepsGate,     \* TRUE: reset() leaves `_shutdown` set, start() clears it (the code); FALSE: reset() clears it - a
+                              \*       submitter that passed the lock-free test before the stop is admitted by a pool that is merely
+                              \*       reset, and its task runs there (self-test)
+          ResetKeepsPending,  \* TRUE: reset() leaves the in-flight spawn reservations alone (the code); FALSE: it zeroes them - a
+                              \*       submitter still between reserving and creating its worker is forgotten by the capacity test
+                              \*       after the restart (self-test)
           RestartSpawnsFirst  \* FALSE: start() after reset() clears `_shutdown`, opens the pool, THEN spawns the initial workers (the
                               \*       code); TRUE: it spawns them first (self-test: a worker that runs before the flag is cleared
                               \*       retires, its thread object keeps its slot in `_threads`, and a pool whose initial size is its
@@ -167,9 +173,13 @@ MJoin == /\ mpc = "join" /\ \A w \in workers : wst[w] = "exited"
 \* stop -> reset -> start.  reset() empties the queue and the (already joined, empty) thread map and zeroes the counters.
 RU == UNCHANGED <<tasks, pending, wtask, active, spc, sip, spawnFlag, accepted, refused, ran, fin, dtorRet>>
 NewW == created + 1
+\* (MRestartBegin is reset(): queue, thread map and counters are cleared - modelled by what the deviations change)
+RU0 == UNCHANGED <<tasks, wtask, active, spc, sip, spawnFlag, accepted, refused, ran, fin, dtorRet>>
 MRestartBegin == /\ mpc = "op" /\ MOp = "restart" /\ stopRet
                  /\ mpc' = (IF RestartSpawnsFirst THEN "rs_spawn" ELSE "rs_clear") /\ UNCHANGED mip
-                 /\ RU /\ UNCHANGED <<workers, created, exited, wst, shutdownF, accepting, stopRet>>
+                 /\ shutdownF' = (IF ResetKeepsGate THEN shutdownF ELSE FALSE)
+                 /\ pending' = (IF ResetKeepsPending THEN pending ELSE 0)
+                 /\ RU0 /\ UNCHANGED <<workers, created, exited, wst, accepting, stopRet>>
 \* (from here on the pool can accept again - a submitter that passed the lock-free test before the stop and was delayed until
 \* now is admitted in its critical section: the "stopped" epoch, which StopComplete speaks of, is over)
 MRestartClear == /\ mpc = "rs_clear" /\ shutdownF' = FALSE /\ stopRet' = FALSE
